@@ -71,6 +71,10 @@ def theorem_names(prop_id):
     """Exported theorems of A5/Props/<ID>.lean (fully qualified)."""
     path = os.path.join(LEAN, "A5", "Props", prop_id + ".lean")
     src = open(path).read()
+    core_path = os.path.join(LEAN, "A5", "Props", prop_id + "Core.lean")
+    if os.path.exists(core_path):
+        # a property file split in two (the second part imports lemma files that themselves import the first part)
+        src = open(core_path).read() + "\n" + src
     # strip comments
     txt = re.sub(r"/-.*?-/", " ", src, flags=re.S)
     txt = re.sub(r"--[^\n]*", " ", txt)
@@ -282,6 +286,19 @@ STATEFUL_OPS = ("hist", "threads", "memo_fill", "consts")
 FRESH_INSTANCE_OPS = ("dodeca_forward", "dodeca_inverse")
 
 
+def default_canon(q, a):
+    """what every comparison ignores: the wording (hence the derived kind) of an error, and the order of the cells `compact` returns (a set: the property speaks of the set of cells,
+    and the implementation builds it through a HashSet and a sort whose tie-breaking is not part of the contract)"""
+    if a.startswith("err"):
+        return "err"          # the harness derives the error kind from the message text; no property speaks about messages
+    if q.startswith("compact ") and a.startswith("ok ") and a[3:] != "-":
+        try:
+            return "ok " + ",".join(map(str, sorted(int(x) for x in a[3:].split(","))))
+        except ValueError:
+            return a
+    return a
+
+
 def _poison(q, rng):
     """a request of the same family as `q` that the library must reject (or answer) without leaving any trace: used to
     perturb the call history in the reordered pass"""
@@ -322,6 +339,7 @@ def reordered_pass(run, exe, requests, model, canon, label, isolate, timeout):
     """The model is a pure function of each request, so the implementation's answer must not depend on the calls made before:
     run a sample of the requests again in a different order, each followed (sometimes) by its own duplicate or by a related
     call the library must reject, and compare with the model's answers.  A difference is a result that depends on history."""
+    canon = canon or default_canon
     rng = random.Random(run.seed * 7919 + len(requests))
     pure = [i for i, q in enumerate(requests) if q.split()[0] not in STATEFUL_OPS and len(q) < 20000 and len(model[i]) < 30000]
     cap = run.n(4000, 40000)
@@ -595,6 +613,7 @@ class Run:
     def correspond(self, requests, impl, model, canon=None, label="corr"):
         """Compare response streams; record disagreements."""
         self.corr_cases += len(requests)
+        canon = canon or default_canon
         for i, (q, a, b) in enumerate(zip(requests, impl, model)):
             ca, cb = (canon(q, a), canon(q, b)) if canon else (a, b)
             if ca != cb:
